@@ -101,6 +101,29 @@ def h_dispatch(ctx, l):
     _check_table(ctx, l, vals, th, ph, f"sph_harm_l({l})")
 
 
+def h_poles(ctx, l, south):
+    """the dispatcher exactly at the poles (bond along +z / -z): closed in the polar angle, every azimuth"""
+    ctx.covers(FUNCS[10], FUNCS[11])
+    sh = ctx.repo(MOD)
+    if ctx.mode == "sym":
+        from symx.scalar import SAngle, SR
+        th = SAngle(SR.const(-1 if south else 1), SR.const(0))
+    else:
+        import math
+        th = math.pi if south else 0.0
+    ph = ctx.angle("phi")
+    saved = _bind_scipy_stub(ctx, sh)
+    try:
+        vals = sh.sph_harm_l(l, th, ph)
+    finally:
+        _restore(sh, saved)
+    ctx.oblige(f"dispatch[{l}] returns a table", vals is not None)
+    if vals is None:
+        return
+    ctx.output("Y", vals)
+    _check_table(ctx, l, vals, th, ph, f"sph_harm_l({l}) at the {'south' if south else 'north'} pole")
+
+
 def h_above(ctx, l):
     ctx.covers(FUNCS[11])
     sh = ctx.repo(MOD)
@@ -117,6 +140,7 @@ def h_above(ctx, l):
 HARNESSES = [
     H("table", h_table, lambda tier, seed: [dict(l=l) for l in range(1, 11)], timeout_ms=30000),
     H("dispatcher", h_dispatch, lambda tier, seed: [dict(l=l) for l in range(1, 13)], timeout_ms=30000),
+    H("poles", h_poles, lambda tier, seed: [dict(l=l, south=s) for l in range(1, 13) for s in (False, True)], timeout_ms=30000),
     H("delegated", h_above, lambda tier, seed: [dict(l=l) for l in ((11, 12) if tier == "quick" else range(11, 21))],
       timeout_ms=30000),
 ]
